@@ -222,11 +222,11 @@ fn fam_histories(o: &mut Out, props: &str, seed0: u64, deadline: Instant) {
     let sp = space();
     // ds outermost: every (variant, planner) pair is visited once before any pair is visited a second time (the budget may end early)
     'outer: for ds in 0..3u64 {
-        for variant in 0..11u64 {
+        for variant in 0..12u64 {
             for (pi, pl) in planners().into_iter().enumerate() {
                 if Instant::now() > deadline { break 'outer; }
                 // seeds are a function of the scenario (variants 0-5 keep the seeds they always had)
-                let k = if variant < 6 { (pi as u64 * 6 + variant) * 3 + ds } else if variant < 10 { 300 + (pi as u64 * 4 + (variant - 6)) * 3 + ds } else { 400 + (pi as u64 * 8 + (variant - 10)) * 3 + ds };
+                let k = if variant < 6 { (pi as u64 * 6 + variant) * 3 + ds } else if variant == 11 { 700 + pi as u64 * 3 + ds } else if variant < 10 { 300 + (pi as u64 * 4 + (variant - 6)) * 3 + ds } else { 400 + (pi as u64 * 8 + (variant - 10)) * 3 + ds };
                 let seed = seed0.wrapping_mul(1000) + 500 + k;
                 let (step, radius) = (0.6, 1.2);
                 let w_open = world(3);
@@ -296,6 +296,15 @@ fn fam_histories(o: &mut Out, props: &str, seed0: u64, deadline: Instant) {
                             p.set_problem_definition(inside.clone());
                             if let Ok(path) = p.solve(Duration::from_millis(500)) { check_path(o, props, &scen, seed, &sp, &w_wall, &inside, &path, radius); }
                         }
+                    }
+                    11 => { // several start states, the FIRST valid and a later one marginally inside an obstacle next to the goal:
+                            // the answer still starts at the first start state and contains no rejected state
+                        let multi = Arc::new(ProblemDefinition { space: sp.clone(), start_states: vec![RealVectorState::new(vec![9.0, 1.0]), RealVectorState::new(vec![4.497 - ds as f64 * 0.001, 8.6])], goal: Arc::new(DiscGoal { c: (3.6, 8.6), r: 0.5 }) });
+                        let w_top = Arc::new(World { boxes: vec![(4.49, 5.5, 0.0, 10.0)], log: Mutex::new(vec![]) });
+                        let _ = &w_top;
+                        let wall2 = Arc::new(World { boxes: vec![(4.49, 5.5, 2.0, 10.0)], log: Mutex::new(vec![]) });
+                        inst.setup(multi.clone(), wall2.clone());
+                        if let Ok(path) = inst.solve(Duration::from_millis(500)) { check_path(o, props, &scen, seed, &sp, &wall2, &multi, &path, Inst::limit(pl, step, radius)); }
                     }
                     _ => { // PRM: reuse the roadmap for a new start / goal
                         if let Inst::Prm(p) = &mut inst {
@@ -578,6 +587,26 @@ fn fam_prm_gap(o: &mut Out, seed0: u64) {
         }
     }
 }
+struct BandGoal { lo: f64, hi: f64 }
+impl Goal<S> for BandGoal { fn is_satisfied(&self, s: &S) -> bool { s.values[0] >= self.lo && s.values[0] <= self.hi } }
+impl GoalRegion<S> for BandGoal { fn distance_goal(&self, s: &S) -> f64 { (self.lo - s.values[0]).max(s.values[0] - self.hi).max(0.0) } }
+impl GoalSampleableRegion<S> for BandGoal { fn sample_goal(&self, rng: &mut impl Rng) -> Result<S, StateSamplingError> { Ok(RealVectorState::new(vec![rng.random_range(self.lo..self.hi), rng.random_range(0.0..10.0)])) } }
+/// C01 / C18: in a world that is 90 % obstacle no rejected sample may become a milestone; the goal band lies just inside the obstacle
+/// face, so any path that is returned ends in a state the checker rejects
+fn fam_prm_dense(o: &mut Out, seed0: u64) {
+    let sp = space();
+    for ds in 0..3u64 {
+        let w = Arc::new(World { boxes: vec![(1.0, 10.0, 0.0, 10.0)], log: Mutex::new(vec![]) });
+        let pdx = Arc::new(ProblemDefinition { space: sp.clone(), start_states: vec![RealVectorState::new(vec![0.5, 5.0])], goal: Arc::new(BandGoal { lo: 1.0, hi: 1.06 }) });
+        let mut prm: PRM<S, SP, BandGoal> = PRM::new(0.15, 1.0, &PlannerConfig { seed: Some(seed0 * 10 + ds) });
+        let vc: Arc<dyn StateValidityChecker<S>> = w.clone();
+        prm.setup(pdx.clone(), vc);
+        let _ = prm.construct_roadmap();
+        if let Ok(path) = prm.solve(Duration::from_millis(500)) {
+            for (k, st) in path.0.iter().enumerate() { if !w.free(st.values[0], st.values[1]) { o.report("prm dense obstacles", seed0 * 10 + ds, format!("path state #{} {:?} is rejected by the checker (a rejected sample became a milestone)", k, st.values)); break; } }
+        }
+    }
+}
 struct OnlyInside;
 impl StateValidityChecker<S> for OnlyInside { fn is_valid(&self, s: &S) -> bool { s.values[0] >= 0.0 && s.values[1] >= 0.0 } }
 fn fam_prm_reference(o: &mut Out, seed0: u64) {
@@ -625,6 +654,24 @@ fn fam_prm_reference(o: &mut Out, seed0: u64) {
 /// C06: degenerate parameters must still honour the time limit (run on a thread with a watchdog)
 fn fam_deadline(o: &mut Out, seed0: u64) {
     let sp = space();
+    // a world in which no sample is ever valid: roadmap construction and solve must still come back
+    for pl in planners() {
+        let w = Arc::new(World { boxes: vec![(-1.0, 11.0, -1.0, 11.0)], log: Mutex::new(vec![]) });
+        let pdx = pd(&sp, (1.0, 1.0), (9.0, 9.0), 0.5);
+        let (tx, rx) = std::sync::mpsc::channel();
+        let seed = seed0;
+        std::thread::spawn(move || {
+            let mut inst = Inst::new(pl, 0.5, 1.0, 0.1, seed);
+            let t0 = Instant::now();
+            inst.setup(pdx.clone(), w.clone());
+            let r = inst.solve(Duration::from_millis(60));
+            let _ = tx.send((t0.elapsed(), r.is_ok()));
+        });
+        match rx.recv_timeout(Duration::from_secs(8)) {
+            Ok((el, ok)) => { if el > Duration::from_secs(4) || ok { o.report(&format!("deadline {:?} nothing valid", pl), seed, format!("setup + solve(60 ms) in a world without valid states returned after {:?} (path claimed: {})", el, ok)); } }
+            Err(_) => o.report(&format!("deadline {:?} nothing valid", pl), seed, "setup (+ construct_roadmap) + solve(60 ms) in a world without valid states had not returned after 8 s".into()),
+        }
+    }
     for pl in planners() {
         for (step, radius) in [(0.0, 0.5), (1e-5, 1e-5), (1e-3, 5.0), (50.0, 50.0)] {
             let w = world(1);
@@ -660,10 +707,12 @@ fn main() {
             let half = Instant::now() + Duration::from_secs_f64(budget / 2.0);
             let p = if prop == "C18" || prop == "C16" || prop == "C17" || prop == "C08" { "all".to_string() } else { prop.clone() };
             if prop == "C06" { fam_deadline(&mut o, seed); }
+            if prop == "C05" { let mut r = spaces::Rep { n: 0 }; spaces::fam_interp(&mut r, seed); o.n += r.n; }      // premise of C05: interpolation at constant speed
             if prop == "C16" { fam_bias(&mut o, seed); fam_extension_reference(&mut o, seed, Instant::now() + Duration::from_secs_f64(budget / 3.0)); }
             // the scripted-roadmap reference (exact link rule, reference BFS) also exposes wrong start connections / over-long first edges
             if prop == "C18" || prop == "C05" || prop == "C02" || prop == "C03" { fam_prm_reference(&mut o, seed); }
             if prop == "C18" || prop == "C05" { fam_prm_gap(&mut o, seed); }
+            if prop == "C18" || prop == "C01" || prop == "C15" { fam_prm_dense(&mut o, seed); }
             fam_histories(&mut o, &p, seed, half);
             fam_paths(&mut o, &p, seed, deadline);
             fam_star_dense(&mut o, &p, seed, deadline + Duration::from_secs_f64(budget / 3.0));
